@@ -54,4 +54,14 @@ META = {
   'text': 'Theorems: for the generic membuffers model (any schema of uint16/uint64/bytes/message/message-array fields, any values whose parts stay below 2^32 bytes) the reader\'s offset table on the builder\'s bytes equals the builder\'s, and every scalar, dynamic field and message array reads back exactly; instantiated to lean-helix: dec_msg (enc_msg m) = Some m for all five message kinds with arbitrary instance/height/view, ids, hashes, signatures, shares, proofs and votes; the same for block proofs; the signed header read out of a message, vote or block proof is byte-identical to the standalone encoding that was signed (so signatures keep verifying). Regression theorem: non-canonical encodings parse, so re-encoding is not the identity (F11). Tie: the Go builders\' bytes must equal the model\'s encoding byte for byte and the Go readers must agree with the model\'s reader on built, truncated, bit-flipped, size-mangled and random bytes.',
   'note': 'Trusted: Coq kernel, Wire.v/WireLH.v models, harness. uint32 offset wrap-around and unsafe reads of membuffers on hostile size words are outside the wire model (cases where the Go reader panics are counted and skipped; C12 covers them with recover guards).',
  },
+ 'C02': {
+  'technique': 'Coq proof (acceptance implies certificate) + correspondence on generated and mangled certificates',
+  'text': 'Theorems about the model of ValidateBlockConsensus on the decoded proof: acceptance implies the certificate of the statement (COMMIT type, this instance, the block\'s height, hash satisfied by the block, pairwise distinct signers all in the committee with valid signatures, quorum test in strict mode / has-honest test in soft mode, non-empty verifying random-seed signature); by C06 the accepted weight is at least Q = W - floor((W-1)/3) resp. more than f for every committee with total below 2^64; unreadable bytes are rejected; the verdict is a total function. Tie: the real ValidateBlockConsensus and GetMemberIdsFromBlockProof on certificates with signer weight aimed at Q, Q-1, f, f+1, each field mutated, outsiders, duplicates, seeds, both modes, truncated / size-mangled / random bytes and the F7 witness; verdicts compared with the model; an independent Go reference predicate flags any acceptance without a genuine certificate; panics are findings.',
+  'note': 'Trusted: Coq kernel, VBC.v model, harness decoding of proof bytes (repo readers) and its key manager. Byte-level decoding is the wire model (C20).',
+ },
+ 'C12': {
+  'technique': 'Coq proof (totality of the term logic, explicit Panic values unreachable) + fault injection of malformed bytes at the real entry points',
+  'text': 'Theorems: for every sequence of deliveries with arbitrary field values and election triggers the term logic never reaches any of its partial operations (OPanic unreachable; uses the storage invariant for prepareMessages[0] and totality of the leader function for all 64-bit views); a single delivery never panics in any state; unreadable content is a no-op event and unreadable proofs are errors. Tie/fault injection: the world engine injects truncated, size-mangled and random content (including the witnesses of finding F7) into running nodes through the loops\' own entry points and requires lockstep agreement with the model afterwards (the node keeps processing and committing); the vbc and wire engines feed hostile bytes to ValidateBlockConsensus, GetMemberIdsFromBlockProof and the readers; any escaping panic is a finding.',
+  'note': 'Trusted: Coq kernel, Term.v/VBC.v models, harness, Go recover semantics. Not expressible: memory unsafety of membuffers\' unsafe reads, runtime fatal errors. The supervision clause (shutdown flag only on cancellation) is part of the Loops model (C16).',
+ },
 }
